@@ -109,6 +109,7 @@ proof {
     let t_after = new_stages(st0, shell.stages());
     assert(shell.stages() == st_pre.push(e));
     assert(t_after =~= t_before.push(e));
+    //@ spawn_pipeline_processes:stage | C03,C02,C10 this-stage-launched-as-specified
     assert(stage_ok_at(t_before.push(e), i0, *pipeline, *params, opts0)) by {
         let n = pipeline_len as int;
         let t2 = t_before.push(e);
